@@ -123,6 +123,12 @@ def programs(seed, n, syms=gen.SYMS, tids=None):
                      "td" + mode[0], entry="symmray")
                 twin(steps, "tensordot", {"axes": [axes_b, axes_a], "mode": mode, "preserve_array": True},
                      ["b", lazy], ["b", "xs"], "tdr" + mode[0], entry="symmray")
+            # outer products (no contracted leg), both operand orders, both axes forms
+            o, _, _ = partner_for(rng, x, 0, rng.randint(1, 2), "fermionic", oddpos=rng.randint(11, 14), phases=0.5, maxd=2)
+            inputs["o"] = o
+            twin(steps, "tensordot", {"axes": [[], []], "mode": rng.choice(["auto", "fused", "blockwise"])}, [lazy, "o"], ["xs", "o"],
+                 "outa", entry="symmray")
+            twin(steps, "tensordot", {"naxes": 0}, ["o", lazy], ["o", "xs"], "outb", entry="symmray")
             # with its own conjugate, over everything: a scalar kept as an array, then read out
             allax = list(range(rank))
             steps.append({"op": "conj", "in": [lazy], "out": ["xc"], "args": {"phase_dual": True}})
